@@ -1,0 +1,23 @@
+//go:build verif
+// +build verif
+
+package core
+
+import "com.tuntun.rangers/node/src/middleware/types"
+
+// VerifGroupForkSwitch performs a group fork switch with the production code: it builds a
+// groupChainFork on commonAncestor (a group of the chain), files the branch groups on it the
+// way addGroupOnFork does once verifyGroup has accepted a group (insertGroup + latestGroup;
+// the fork is keyed by their GroupHeight = ancestor height + 1, + 2, ...) and then runs
+// triggerOnChain on the group chain.  Returns triggerOnChain's result.  No behaviour of its own.
+func VerifGroupForkSwitch(commonAncestor *types.Group, branch []*types.Group) bool {
+	fork := newGroupChainFork(commonAncestor)
+	defer fork.destroy()
+	for _, g := range branch {
+		if err := fork.insertGroup(g); err != nil {
+			panic(err)
+		}
+		fork.latestGroup = g
+	}
+	return fork.triggerOnChain(groupChainImpl)
+}
